@@ -320,17 +320,7 @@ class Analysis:
         if isinstance(e, ast.Call):
             return self._call(fi, n, e, depth)
         if isinstance(e, (ast.ListComp, ast.GeneratorExp, ast.SetComp, ast.DictComp)):
-            env: Dict[str, object] = {}
-            self._env.append(env)
-            try:
-                for g in e.generators:
-                    el = dom.iter_elem(self, fi, n, g.iter, self.ev(fi, n, g.iter, depth + 1))
-                    self._bind_target(env, g.target, el)
-                if isinstance(e, ast.DictComp):
-                    return flat(self.ev(fi, n, e.key, depth + 1))
-                return flat(self.ev(fi, n, e.elt, depth + 1))
-            finally:
-                self._env.pop()
+            return flat(self.comp_elem(fi, n, e, depth))
         if isinstance(e, ast.Dict):
             out = BOT
             for k, v in zip(e.keys, e.values):
@@ -346,6 +336,21 @@ class Analysis:
         if isinstance(e, ast.Lambda):
             return dom.OBJ
         return dom.OTHER
+
+    def comp_elem(self, fi, n, e, depth: int = 0):
+        """Value of one element of a comprehension (tuple structure kept)."""
+        dom = self.dom
+        env: Dict[str, object] = {}
+        self._env.append(env)
+        try:
+            for g in e.generators:
+                el = dom.iter_elem(self, fi, n, g.iter, self.ev(fi, n, g.iter, depth + 1))
+                self._bind_target(env, g.target, el)
+            if isinstance(e, ast.DictComp):
+                return self.ev(fi, n, e.key, depth + 1)
+            return self.ev(fi, n, e.elt, depth + 1)
+        finally:
+            self._env.pop()
 
     def _const_seq(self, c):
         out = BOT
@@ -506,7 +511,21 @@ class Analysis:
             return dom.add(l, r, a.target, a.value) if isinstance(a.op, ast.Add) else dom.unknown([l, r])
         if d.kind == "for":
             v = self.ev(fi, d.node, d.value, depth + 1)
-            el = dom.iter_elem(self, fi, d.node, d.value, v)
+            it = d.value
+            if isinstance(it, ast.Name):
+                # `it = <expr>; for x in it` (also the parameter binding of an inlined helper)
+                from .dataflow import iter_exprs, origins
+                srcs = [o for o in origins(self.du(fi), d.node, it)]
+                if srcs and all(o.kind == "expr" and not o.path and o.leaf is not None and not isinstance(o.leaf, ast.Name) for o in srcs):
+                    el = None
+                    for o in srcs:
+                        if isinstance(o.leaf, (ast.ListComp, ast.GeneratorExp, ast.SetComp)):
+                            ei = self.comp_elem(fi, o.node, o.leaf, depth + 1)
+                        else:
+                            ei = dom.iter_elem(self, fi, o.node, o.leaf, self.ev(fi, o.node, o.leaf, depth + 1))
+                        el = join(el, ei) if el is not None else ei
+                    return self._index(el, d.index)
+            el = dom.iter_elem(self, fi, d.node, it, v)
             return self._index(el, d.index)
         if d.kind == "with":
             v = self.ev(fi, d.node, d.value, depth + 1)
